@@ -12,8 +12,13 @@ def constrained_binary_solve(
             f"w must be a 1D vector; received a vector of dimension {ndim(w)}"
         )
 
+    # A zero residual (tol=0) is never reached exactly in floating point, so the
+    # pursuit used to go on past the rank of psi and could pick up an extra,
+    # noise-driven sensor. psi.shape[0] (= n_basis_modes) atoms always reproduce w.
     model = OrthogonalMatchingPursuit(
-        tol=0, fit_intercept=fit_intercept, precompute=precompute
+        n_nonzero_coefs=min(psi.shape),
+        fit_intercept=fit_intercept,
+        precompute=precompute,
     )
 
     if quiet:
